@@ -181,13 +181,21 @@ def _build_plan(ctx: RunContext, context: OptimizerContext, spec: dict, level: i
     for tag in spec.get("recorders", ["a"]):
         plan.add_handler("sim/recorder", ctx=ctx, tag=f"h{level}{tag}", level=level)
     for sspec in spec["steps"]:
-        sid = plan.add_step(sspec["kind"])
+        owner, owner_level = plan, level
+        if sspec.get("child"):
+            # the step lives in a plan of its own that was created as a child of this plan (Plan(context, parent=plan))
+            # and is run directly by the user, not through nested_optimization
+            owner, owner_level = Plan(context, parent=plan), level + 1
+            ctx.plans.append(owner)
+            for tag in spec.get("recorders", ["a"]):
+                owner.add_handler("sim/recorder", ctx=ctx, tag=f"h{owner_level}{tag}", level=owner_level)
+        sid = owner.add_step(sspec["kind"])
         ctx.step_index[sid] = len(ctx.step_meta)
-        ctx.step_meta.append({"kind": sspec["kind"], "level": level, "cfg": sspec["cfg"]})
+        ctx.step_meta.append({"kind": sspec["kind"], "level": owner_level, "cfg": sspec["cfg"]})
         nested = None
         if sspec.get("nested"):
             nested = _build_plan(ctx, context, sspec["nested"], level + 1)
-        built["steps"].append({"id": sid, "spec": sspec, "nested": nested,
+        built["steps"].append({"id": sid, "spec": sspec, "nested": nested, "plan": owner,
                                "index": ctx.step_index[sid]})
     for tspec in spec.get("trackers", []):
         sources = {built["steps"][i]["id"] for i in tspec["sources"]}
@@ -251,7 +259,7 @@ def _run_built(ctx: RunContext, built: dict, configs: list[dict], variables=None
         if sspec.get("metadata") is not None:
             kwargs["metadata"] = sspec["metadata"]
         try:
-            code = plan.run_step(st["id"], **kwargs)
+            code = st.get("plan", plan).run_step(st["id"], **kwargs)
             ctx.exits.append(("ret", st["index"], None if code is None else int(code)))
         except PlanAborted:
             ctx.exits.append(("plan_aborted", st["index"], None))
